@@ -23,6 +23,7 @@ Url(v, w)  == T("url", v, w)
 Fn(n, a, w)  == [k |-> "func", v |-> n, a |-> a, w |-> w, id |-> <<>>]
 Par(a, w)    == [k |-> "paren", v |-> "", a |-> a, w |-> w, id |-> <<>>]
 Brk(a, w)    == [k |-> "brack", v |-> "", a |-> a, w |-> w, id |-> <<>>]
+Cur(a, w)    == [k |-> "curly", v |-> "", a |-> a, w |-> w, id |-> <<>>]
 Dim(n, u, w) == [k |-> "dim", n |-> n, unit |-> u, w |-> w, id |-> <<>>]
 Num(n, w)    == [k |-> "num", n |-> n, unit |-> "", w |-> w, id |-> <<>>]
 Pct(n, w)    == [k |-> "pct", n |-> n, unit |-> "%", w |-> w, id |-> <<>>]
@@ -78,9 +79,17 @@ WrappersT(r) == { <<r>>, <<At("MEDIA", <<I("screen", TRUE)>>, "rules", <<r>>)>>,
                  <<At("media", <<I("screen", TRUE)>>, "rules", <<At("layer", <<I("l2", TRUE)>>, "rules", <<r, Rule(<<I("p", FALSE)>>, Red)>>)>>)>>,
                  <<At("layer", <<>>, "rules", <<At("supports", <<Par(<<I("a", FALSE), Col(FALSE), I("b", FALSE)>>, TRUE)>>, "rules",
                         <<At("media", <<I("print", TRUE)>>, "rules", <<r>>)>>)>>)>> }
+(* the rule standing directly after a STATEMENT at-rule (one that ends at its `;` although its name may also open a
+   block), at the top level and inside a rule-bearing at-rule *)
+StmtLayer == At("layer", <<I("a", TRUE), Com(FALSE), I("b", TRUE)>>, "stmt", <<>>)
+AfterStmt(r) == { <<StmtLayer, r>>, <<At("layer", <<I("a", TRUE)>>, "stmt", <<>>), r>>,
+                  <<At("media", <<I("screen", TRUE)>>, "rules", <<StmtLayer, r, Rule(<<Dl(".", FALSE), I("t", FALSE)>>, Red)>>)>>,
+                  <<At("charset", <<Str("utf-8", TRUE)>>, "stmt", <<>>), r>>,
+                  <<At("unknown", <<I("x", TRUE)>>, "stmt", <<>>), r>> }
 Wrappers(r) == IF Scale = "quick" THEN WrappersQ(r) ELSE WrappersT(r)
 
 FSel(lazy) == UNION { Wrappers(Rule(s, Red)) : s \in SelFew \cup SelNested(0) } \cup { <<Rule(s, Red)>> : s \in Sel2(0) }
+              \cup UNION { AfterStmt(Rule(s, Red)) : s \in IF Scale = "quick" THEN SelFew ELSE SelFew \cup SelNested(0) }
 
 -----------------------------------------------------------------------------
 (* values and numbers: n indexes the harness's numeric pool *)
@@ -133,6 +142,7 @@ FTok(lazy) == { <<Rule(<<Dl(".", FALSE), I("a", FALSE)>>, <<Decl(p[1], p[2])>>)>
             <<"--custom", <<Brk(<<I("a", FALSE), Num(2, TRUE)>>, FALSE), Par(<<I("x", FALSE), Com(FALSE), I("y", TRUE)>>, TRUE), I("z", TRUE)>>>>,
             <<"width", <<Fn("calc", <<Fn("var", <<I("--a", FALSE)>>, FALSE), Dl("+", TRUE), Fn("min", <<Dim(3, "px", FALSE), Com(FALSE), Dim(3, "rpx", TRUE)>>, TRUE)>>, FALSE)>>>>,
             <<"ab", <<I("a", FALSE), Dl(".", FALSE), I("b", FALSE), Num(6, TRUE)>>>>,
+            <<"--blk", <<Cur(<<I("a", FALSE), Col(FALSE), Dim(3, "rpx", TRUE), T("semi", "", FALSE), Dl(".", TRUE), I("c", FALSE)>>, TRUE), I("z", TRUE)>>>>,
             <<"quotes", <<Str("~L~", FALSE), Str("~R~", TRUE)>>>>,
             (* units that read like an exponent when pasted after the number: they need their escape kept *)
             <<"w1", <<Dim(3, "e5", FALSE)>>>>, <<"w2", <<Dim(11, "e5", FALSE)>>>>, <<"w3", <<Dim(3, "E-2", FALSE)>>>>, <<"w4", <<Dim(11, "e-2", FALSE)>>>>,
@@ -173,7 +183,10 @@ Ord(n) == Rule(<<Dl(".", FALSE), I(n, FALSE)>>, Red)
 HostRules == { Rule(HostSel, HD), Rule(<<Col(FALSE), I("HOST", FALSE)>>, HD), Rule(HostSel, <<>>),
                Rule(<<Col(FALSE), Fn("host", <<Dl(".", FALSE), I("x", FALSE)>>, FALSE)>>, HD),
                Rule(HostSel \o <<Dl(".", TRUE), I("a", FALSE)>>, HD), Rule(HostSel \o <<Com(FALSE), Dl(".", FALSE), I("a", FALSE)>>, HD),
-               Rule(HostSel \o <<Col(FALSE), I("hover", FALSE)>>, HD) }
+               Rule(HostSel \o <<Col(FALSE), I("hover", FALSE)>>, HD),
+               (* a {..} block inside the declarations of the :host rule: its `}` does not end the rule *)
+               Rule(HostSel, <<Decl("--x", <<Cur(<<I("a", FALSE), Col(FALSE), I("b", TRUE)>>, TRUE)>>), Decl("width", <<Dim(3, "rpx", FALSE)>>)>>),
+               Rule(HostSel, <<Decl("color", <<I("red", FALSE)>>), DeclL("--y", <<Cur(<<Cur(<<>>, FALSE), Dim(3, "rpx", TRUE)>>, FALSE)>>)>>) }
 Chains(rs) == { rs, <<At("Media", <<I("screen", TRUE)>>, "rules", rs)>>, <<At("media", <<Par(<<I("width", FALSE), Col(FALSE), Dim(3, "px", TRUE)>>, TRUE)>>, "rules", rs)>>,
                 <<At("media", <<I("screen", TRUE)>>, "rules", <<Ord("m")>> \o <<At("supports", <<Par(<<I("color", FALSE), Col(FALSE), I("red", TRUE)>>, TRUE)>>, "rules", rs)>> \o <<Ord("n")>>)>>,
                 <<At("supports", <<Par(<<I("a", FALSE), Col(FALSE), I("b", FALSE)>>, TRUE)>>, "rules",
@@ -204,6 +217,13 @@ FImport(lazy) == { <<Import(f, p, l, s, m)>> : f \in {"string", "url"}, p \in Im
                   <<At("media", <<I("screen", TRUE)>>, "rules", <<At("supports", <<Par(<<I("a", FALSE), Col(FALSE), I("b", FALSE)>>, TRUE)>>, "rules", <<Ord("m")>>),
                                                                   Import("string", "c", "none", <<>>, <<>>)>>)>> }
            \cup { <<Import("string", "a", "none", <<>>, <<>>), Import("string", "b", "x", <<>>, <<I("print", TRUE)>>), Ord("z")>> }
+           (* the same file imported more than once - under other conditions, in the other form, after another import: every
+              occurrence is an import of its own (cascade order, layer and media differ) *)
+           \cup { <<Import(f1, p, "none", <<>>, m1), Import(f2, p, l2, <<>>, m2), Ord("z")>> :
+                     p \in {"a.wxss", "a%20b"}, f1 \in {"string"}, f2 \in {"string", "url"}, l2 \in {"none", "x"},
+                     m1 \in {<<>>, <<I("screen", TRUE)>>}, m2 \in {<<>>, <<I("print", TRUE)>>} }
+           \cup { <<Import("string", "a", "none", <<>>, <<>>), Import("string", "b", "none", <<>>, <<>>), Import("url", "a", "x", <<>>, <<>>)>>,
+                  <<Import("string", "a", "none", <<>>, <<>>), Import("string", "a", "none", <<>>, <<>>), Import("string", "a", "none", <<>>, <<>>)>> }
 ImportOpts == {[NoOpt EXCEPT !.importSign = s, !.prefix = p] : s \in {"none", "IMP"}, p \in {"none", "p"}}
 
 -----------------------------------------------------------------------------
